@@ -262,10 +262,28 @@ func c13(c *Ctx) {
 			isoMu.Lock()
 			isos[si] = iso
 			isoMu.Unlock()
+			if s.conc {
+				// templates that neither render others nor have a children slot, rendered concurrently under a parent
+				// context that comes from inside goht (a component fanning out with the context it was given): they
+				// only read the shared per-render value
+				var leaf []rt.Job
+				for _, j := range s.rc.Jobs {
+					if src := templateSrc(s.rc.Src, j.Name); !strings.Contains(src, "@render") && !strings.Contains(src, "@children") && len(leaf) < 400 {
+						leaf = append(leaf, j)
+					}
+				}
+				if len(leaf) > 0 {
+					_, stderr2, _ := b.RunConcOpt(s.rc.Envs, leaf, 180*time.Second, g, true)
+					if strings.Contains(stderr2, "DATA RACE") {
+						races[si] = stderr2
+					}
+				}
+			}
 			res, stderr, err := b.RunConc(s.rc.Envs, s.rc.Jobs, 180*time.Second, g)
 			s.rc.Real = res
 			if strings.Contains(stderr, "DATA RACE") {
 				races[si] = stderr
+			} else if races[si] != "" {
 			} else if err != nil {
 				s.rc.Detail = "run: " + err.Error()
 			}
